@@ -233,6 +233,53 @@ fn run_prepared(rep: &Reporter, op: usize, o_react: f64, o_prod: f64, kin: f64, 
     }
 }
 
+/// Decompositions whose energy balance is decided in the last bits: objective values around 1e15 - 1e16, products that
+/// need a share of the buffer amounting to a few units. Only the clauses every update must satisfy are judged
+/// (conservation up to rounding, no negative energy, alignment, stack) - not whether the reaction is accepted.
+fn prepared_at_the_rounding_limit(rep: &Reporter) {
+    let seeds = rep.tier.pick(300u64, 20_000u64);
+    for &o_react in &[1e16f64, 1e15, 3e15] {
+        for &extra in &[0.5f64, 1.0, 2.0, 3.0, 8.0] {
+            for &buffer in &[1.5f64, 3.0, 10.0, 1e3] {
+                for &kin in &[0.0f64, 0.5, 2.0] {
+                    rep.nontrivial(hash_of(&("rounding", o_react.to_bits(), extra.to_bits(), buffer.to_bits(), kin.to_bits())));
+                    for seed in 0..seeds {
+                        // two products that together need `extra` more than the reactant has
+                        let p0 = ((o_react + kin + extra) / 2.0).floor() + 1.0;
+                        let p1 = (o_react + kin + extra) - p0;
+                        let main: Vec<Individual<TagP>> = vec![tagged(10, Some(7.0)), tagged(11, Some(o_react)), tagged(12, Some(1.5))];
+                        let kes = [0.25, kin, 3.5];
+                        let molecules: Vec<Molecule<TagP>> = main.iter().zip(kes.iter()).map(|(i, k)| Molecule::new(*k, i.clone())).collect();
+                        let mut st = State::<TagP>::new();
+                        let mut pops = Populations::<TagP>::new();
+                        pops.push(main.clone());
+                        pops.push(vec![main[1].clone()]);
+                        pops.push(vec![tagged(50, Some(p0)), tagged(51, Some(p1))]);
+                        st.insert(pops);
+                        st.insert(ChemicalReaction::<TagP>(molecules));
+                        st.insert(EnergyBuffer(buffer));
+                        st.insert(Random::new(seed));
+                        let h = |s: &u32| *s as u64;
+                        let before = snap(&st, 2, h);
+                        let r = catch(|| DecompositionUpdate::new::<TagP>().execute(&TagP, &mut st).map_err(|e| format!("{e:#}")));
+                        rep.case();
+                        let case = || json!({"operator": "DecompositionUpdate", "reactant_objective": o_react, "reactant_kinetic_energy": kin, "product_objectives": [p0, p1], "buffer": buffer, "seed": seed});
+                        if !matches!(r, Ok(Ok(()))) {
+                            rep.violation("DecompositionUpdate:fails-on-a-well-formed-state:at-the-rounding-limit", json!({"case": case(), "result": format!("{r:?}")}));
+                            continue;
+                        }
+                        let after = snap(&st, 0, h);
+                        rep.count(if after.pop != before.pop { "rounding_limit_reactions_accepted" } else { "rounding_limit_reactions_rejected" }, 1);
+                        for (sig, msg) in judge("DecompositionUpdate", &before, &after) {
+                            rep.violation(&format!("{sig}:at-the-rounding-limit"), json!({"case": case(), "observed": msg, "before": format!("{before:?}"), "after": format!("{after:?}")}));
+                        }
+                    }
+                }
+            }
+        }
+    }
+}
+
 // ---- template runs -----------------------------------------------------------------------------------------
 #[derive(Default)]
 struct Rec {
@@ -429,6 +476,7 @@ fn main() {
     rep.rule("(a) each of the four reaction updates on prepared three-population states (a main population of 5 molecules with unique kinetic energies as fingerprints, optionally containing an identical twin of a reactant, or an individual with a reactant's solution but another objective value; reactant and product populations on top) over reactant/product objective values {-5,0,.5,3,40}^2 x kinetic energies {0,.1,5,100} x buffers {0,1,1000} x seeds; (b) every reaction update of real_cro runs and of harness-assembled systems (the generic cro loop as the body of an outer loop, so that its initialisation executes again every epoch; a second reaction system run to completion inside a scope in the middle of the outer one's reactions; records per scope depth) observed at the step-observer hook; between two updates of a system its population, records and buffer are bit-identical and aligned. Per update: sum of objective values + kinetic energies + buffer unchanged within 1e-9 relative, no negative kinetic energy or buffer, one molecule record per individual with record i belonging to individual i (best memory never worse than the individual; in (a) also which slot was replaced / appended / removed and that records of uninvolved molecules did not move), stack height reduced by exactly two also when the reaction is rejected; in (a) acceptance as the energies dictate. distinct_nontrivial = distinct prepared cells + distinct template runs");
     rep.assume("finite objective values; the main population is the third population from the top when an update starts");
     prepared(&rep);
+    prepared_at_the_rounding_limit(&rep);
     let cases: Vec<_> = templates::cases(false, rep.seed, rep.tier.pick(8, 300)).into_iter().filter(|c| c.tmpl == Tmpl::Cro && c.n > 0).collect();
     let n = cases.len();
     std::thread::scope(|s| {
